@@ -1,15 +1,17 @@
 #!/bin/sh
 # usage: seedtest.sh <seeded dir name> <property> [more properties...]
-# Applies seeded/<dir>/patch.diff to /repo, runs the quick checks, and always restores /repo.
+# Runs the quick checks against a scratch worktree of /repo's HEAD with seeded/<dir>/patch.diff applied
+# (VERIF_REPO points the checks at it), so that /repo itself and background runs using it are not disturbed.
+# The documented alternative is: git -C /repo apply <patch>; bin/check ...; git -C /repo checkout -- .
 d=/verif/seeded/$1
 shift
-cd /repo || exit 2
-if ! git diff --quiet; then echo "/repo has uncommitted changes" >&2; exit 2; fi
-git apply "$d/patch.diff" || { echo "patch does not apply" >&2; exit 2; }
-trap 'git -C /repo checkout -- . ; git -C /repo clean -fdq analysis internal cmd' EXIT INT TERM
+wt=/tmp/seedwt-$$
+git -C /repo worktree add -q --detach "$wt" HEAD || exit 2
+trap 'git -C /repo worktree remove --force "$wt" >/dev/null 2>&1' EXIT INT TERM
+git -C "$wt" apply "$d/patch.diff" || { echo "patch does not apply" >&2; exit 2; }
 for p in "$@"; do
   echo "=== $p on $d"
-  ( cd /verif && bin/check "$p" --tier quick ) > "/tmp/seedtest-$(basename $d)-$p.log" 2>&1
+  ( cd /verif && VERIF_REPO="$wt" VERIF_EVIDENCE_DIR="/tmp/seedtest-evidence" VERIF_REPLAY_DIR="/tmp/seedtest-replays" bin/check "$p" --tier quick ) > "/tmp/seedtest-$(basename $d)-$p.log" 2>&1
   echo "exit=$?"
   grep -E "^VIOLATION|^KNOWN-FINDING|signature" "/tmp/seedtest-$(basename $d)-$p.log" | cut -c1-220 | head -8
 done
